@@ -343,6 +343,10 @@ Inductive pr_ans :=
 
 Definition DEFAULT_MAX_STATES : N := 100000.
 Definition DEFAULT_MAX_DEPTH : N := 10000.
+(** RealizabilityConfig: the bounds used when is_realizable is called without bounds — by the caller, and by the scaled and
+    borrow searches, which always call it that way *)
+Record pr_config := Cfg { cfg_states : N; cfg_depth : N }.
+Definition cfg_default : pr_config := Cfg DEFAULT_MAX_STATES DEFAULT_MAX_DEPTH.
 
 Definition pr_loaded (flow : list Z) : pr_state := PR flow None None.
 
@@ -364,16 +368,16 @@ Definition do_real (st : pr_state) (ms md : N) : pr_state * pr_ans :=
 (** the [for k in range(1, k_max + 1)] loop of [is_scaled_realizable]; [n] = iterations left.
     Each iteration overwrites the flow with k * saved, rebuilds and searches with the default bounds;
     on success and after the loop the saved flow is restored AND the net rebuilt. *)
-Fixpoint scaled_loop (V : list N) (E : list edge) (saved : list Z) (st : pr_state) (k : N) (n : nat)
+Fixpoint scaled_loop (cf : pr_config) (V : list N) (E : list edge) (saved : list Z) (st : pr_state) (k : N) (n : nat)
   : pr_state * pr_ans :=
   match n with
   | O => (do_build V E (set_flow st saved), AScaled None)
   | S n' =>
       let st1 := do_build V E (set_flow st (map (Z.mul (Z.of_N k)) saved)) in
-      let '(st2, a) := do_real st1 DEFAULT_MAX_STATES DEFAULT_MAX_DEPTH in
+      let '(st2, a) := do_real st1 (cfg_states cf) (cfg_depth cf) in
       match a with
       | AReal (Found _) => (do_build V E (set_flow st2 saved), AScaled (Some k))
-      | _ => scaled_loop V E saved st2 (N.succ k) n'
+      | _ => scaled_loop cf V E saved st2 (N.succ k) n'
       end
   end.
 
@@ -399,7 +403,7 @@ Definition add_borrow (m : dict) (species : list N) (comb : list Z) : dict :=
                          else set m (sp_place (fst sv)) (get m (sp_place (fst sv)) + snd sv)%Z)
             (combine species comb) m.
 
-Fixpoint borrow_loop (V : list N) (E : list edge) (species : list N) (M0s MTs : dict) (st : pr_state)
+Fixpoint borrow_loop (cf : pr_config) (V : list N) (E : list edge) (species : list N) (M0s MTs : dict) (st : pr_state)
          (combs : list (list Z)) : pr_state * pr_ans :=
   match combs with
   | [] => (st, ABorrow None)
@@ -409,44 +413,44 @@ Fixpoint borrow_loop (V : list N) (E : list edge) (species : list N) (M0s MTs : 
       | None => (st1, AErr)                      (* unreachable: do_build always builds *)
       | Some b1 =>
           let b' := Built (b_net b1) (add_borrow (b_M0 b1) species comb) (add_borrow (b_MT b1) species comb) in
-          let v := bo_verdict (is_realizable b' DEFAULT_MAX_STATES DEFAULT_MAX_DEPTH) in
+          let v := bo_verdict (is_realizable b' (cfg_states cf) (cfg_depth cf)) in
           let st2 := PR (pr_flow st1) (Some (Built (b_net b1) M0s MTs))
                         (match v with Found s => Some s | _ => None end) in
           match v with
           | Found _ => (st2, ABorrow (Some comb))
-          | _ => borrow_loop V E species M0s MTs st2 combs'
+          | _ => borrow_loop cf V E species M0s MTs st2 combs'
           end
       end
   end.
 
-Definition do_borrow (V : list N) (E : list edge) (st : pr_state) (mb : nat) : pr_state * pr_ans :=
+Definition do_borrow (cf : pr_config) (V : list N) (E : list edge) (st : pr_state) (mb : nat) : pr_state * pr_ans :=
   let st0 := match pr_built st with None => do_build V E st | Some _ => st end in
   match pr_built st0 with
   | None => (st0, AErr)
   | Some b0 =>
       let species := sorted_vertices V in
-      borrow_loop V E species (b_M0 b0) (b_MT b0) st0 (borrow_vectors mb (length species))
+      borrow_loop cf V E species (b_M0 b0) (b_MT b0) st0 (borrow_vectors mb (length species))
   end.
 
-Definition pr_step (V : list N) (E : list edge) (st : pr_state) (op : pr_op) : pr_state * pr_ans :=
+Definition pr_step (cf : pr_config) (V : list N) (E : list edge) (st : pr_state) (op : pr_op) : pr_state * pr_ans :=
   match op with
   | OpReal ms md => do_real st ms md
-  | OpScaled k_max => scaled_loop V E (pr_flow st) st 1%N k_max
+  | OpScaled k_max => scaled_loop cf V E (pr_flow st) st 1%N k_max
   | OpCert => (st, ACert (pr_cert st))
   | OpBuild => (do_build V E st, ADone)
   | OpLoad fl => (pr_loaded fl, ADone)
-  | OpBorrow mb => do_borrow V E st mb
+  | OpBorrow mb => do_borrow cf V E st mb
   end.
 
 (** a history: the answers in call order, each with the object's state right after the call *)
-Fixpoint pr_run (V : list N) (E : list edge) (st : pr_state) (ops : list pr_op) : list (pr_ans * pr_state) :=
+Fixpoint pr_run (cf : pr_config) (V : list N) (E : list edge) (st : pr_state) (ops : list pr_op) : list (pr_ans * pr_state) :=
   match ops with
   | [] => []
-  | op :: ops' => let '(st', a) := pr_step V E st op in (a, st') :: pr_run V E st' ops'
+  | op :: ops' => let '(st', a) := pr_step cf V E st op in (a, st') :: pr_run cf V E st' ops'
   end.
 
-Definition pr_exec (V : list N) (E : list edge) (st : pr_state) (ops : list pr_op) : pr_state :=
-  fold_left (fun s op => fst (pr_step V E s op)) ops st.
+Definition pr_exec (cf : pr_config) (V : list N) (E : list edge) (st : pr_state) (ops : list pr_op) : pr_state :=
+  fold_left (fun s op => fst (pr_step cf V E s op)) ops st.
 
 (** * Part 5 — PetriAnalyzer (analyzer.py) kept while the analysed network object is edited
 
@@ -576,9 +580,9 @@ Definition tstate (st : pr_state) : tok :=
       end;
       tcert (pr_cert st) ].
 
-Definition run_hist (vertices : list N) (edges : list edge) (flow : list Z) (ops : list pr_op) : tok :=
+Definition run_hist (cf : pr_config) (vertices : list N) (edges : list edge) (flow : list Z) (ops : list pr_op) : tok :=
   tlist (fun ast : pr_ans * pr_state => L [tans (fst ast); tstate (snd ast)])
-        (pr_run vertices edges (pr_loaded flow) ops).
+        (pr_run cf vertices edges (pr_loaded flow) ops).
 
 Definition tan_ans (a : an_ans) : tok :=
   match a with
